@@ -82,3 +82,17 @@ package PVM
 //@   ensures copy_transfers: old(*input.VM.Gas) >= 10 ==> len(output.Addition.ResultContextY.DeferredTransfers) == len(input.Addition.ResultContextX.DeferredTransfers) && forall(i, 0, len(input.Addition.ResultContextX.DeferredTransfers), output.Addition.ResultContextY.DeferredTransfers[i] == input.Addition.ResultContextX.DeferredTransfers[i])
 //@   ensures copy_owned: old(*input.VM.Gas) >= 10 ==> fresh(output.Addition.ResultContextY.PartialState.ServiceAccounts) && allkeys(sid, output.Addition.ResultContextY.PartialState.ServiceAccounts, c10_own(output.Addition.ResultContextY.PartialState.ServiceAccounts[sid])) && fresh(output.Addition.ResultContextY.ServiceBlobs) && fresh(output.Addition.ResultContextY.StorageKeyVal)
 //@   assigns *input.VM.Gas, input.VM.Registers[7]
+
+// ---- C33: machine (host call 8) hands out the smallest handle that is not in use (GP B.? "n = min(N \ K(m))") ----
+//@ func machine
+//@   props C33
+//@   ghost j uint64
+//@   requires nonnil: input.VM != nil && input.VM.Gas != nil && input.VM.Registers != nil && input.VM.Memory != nil && wf_mem(input.VM.Memory) && input.Addition.IntegratedPVMMap != nil
+//@   requires sane: *input.VM.Gas > -9223372036854775000
+//@   ghost h uint64
+//@   ensures smallest_free: output.ExitReason == ExitContinue && input.VM.Registers[7] < 18446744073709551000 && h == input.VM.Registers[7] ==> !old(has(input.Addition.IntegratedPVMMap, h)) && (j < h ==> old(has(input.Addition.IntegratedPVMMap, j)))
+//@   ensures stored: output.ExitReason == ExitContinue && input.VM.Registers[7] < 18446744073709551000 ==> has(input.Addition.IntegratedPVMMap, input.VM.Registers[7]) && input.Addition.IntegratedPVMMap[input.VM.Registers[7]].PC == ProgramCounter(old(input.VM.Registers[9])) && input.Addition.IntegratedPVMMap[input.VM.Registers[7]].Memory.Pages != nil
+//@   assigns everything
+//@   loop n#0
+//@     invariant scanned: all(q, uint64, q < n ==> has(input.Addition.IntegratedPVMMap, q))
+//@     invariant frame: frame_only(*input.VM.Gas)
